@@ -32,11 +32,17 @@ Proof. reflexivity. Qed.
 
 Section Static.
   Variable look : name -> option val.
-  Notation fzr := (fzr look).
-  Notation fzrL := (fzrL look).
-  Notation fzrOps := (fzrOps look).
-  Notation fzrC := (fzrC look).
-  Notation fzrArms := (fzrArms look).
+  Variable mutl : list name.
+  Notation dbc := (dbc mutl).
+  Notation dbcL := (dbcL mutl).
+  Notation dbcOps := (dbcOps mutl).
+  Notation dbcC := (dbcC mutl).
+  Notation dbcArms := (dbcArms mutl).
+  Notation fzr := (fzr look mutl).
+  Notation fzrL := (fzrL look mutl).
+  Notation fzrOps := (fzrOps look mutl).
+  Notation fzrC := (fzrC look mutl).
+  Notation fzrArms := (fzrArms look mutl).
   Notation freeze := (freeze look).
 
   Definition stat (e : expr) : Prop :=
@@ -165,7 +171,7 @@ Section Static.
     - cbn in HF. inversion HF; subst. constructor.
     - cbn in HF. inversion HF; subst. constructor.
     - (* EVar *) cbn in HF, HP. destruct (mem x B) eqn:M.
-      + inversion HF; subst. constructor.
+      + inversion HF; subst. inv Hd. constructor. auto.
       + destruct (look x) eqn:L; inversion HF; subst. apply FVarRepl; auto. apply HP. left; auto.
     - cbn in HF. discriminate.
     - cbn in HF. inversion HF; subst. inv Hd. constructor; auto.
